@@ -143,6 +143,34 @@ func checkC12(r *core.Run) {
 	pairLayer(r, strPairItems([]string{"", "a", "/a", "/a 1x", "/a 1x, /b 2x", "/a 1x,/b", "a,b", "a, b", ",", " ", "javascript:x", "javascript:x 1x", "/a 1x, javascript:x 2x", "javascript:x, /a",
 		"JAVASCRIPT:x 2x", "https://o/p 100w", "https://o/p 1x, https://o/q 2x", "data:x", "/a 1x 2x", "/a x", "/a 1xx", "/a\f1x", "\x00javascript:x", "a:b", "a/b:c 1x", "&", "/a,", ",/a",
 		"\u0130javascript:x", "/\u0130 1x, javascript:x", strings.Repeat("/a 1x, ", 40) + "javascript:x", strings.Repeat("a", 130) + ":x 1x", "/" + strings.Repeat("a", 130) + ", javascript:x"}, c12Judge))
+	// lists of three and four whole candidates: which ones survive and how the survivors are joined
+	urls := []string{"a.png", "javascript:alert(1)", "https://o/c.png", "x:y", ""}
+	descs := []string{"", " 1x", " 2x", " zz", " 100w", " 1x 2x"}
+	seps := []string{",", " , ", ", ", " ,"}
+	var cands []string
+	for _, u := range urls {
+		for _, d := range descs {
+			cands = append(cands, u+d)
+		}
+	}
+	var nlist int64
+	core.ParallelFor(len(cands), func(i int) {
+		for _, b := range cands {
+			for _, c := range cands {
+				for _, sp := range seps {
+					eval(cands[i] + sp + b + sp + c)
+					atomic.AddInt64(&nlist, 1)
+				}
+				if r.Thorough() {
+					for _, d := range cands {
+						eval(cands[i] + " , " + b + "," + c + ", " + d)
+						atomic.AddInt64(&nlist, 1)
+					}
+				}
+			}
+		}
+	})
+	r.Set("layer_candidate_lists", fmt.Sprintf("all lists of 3 (thorough: and 4) candidates over %d URLs x %d descriptors x %d separators: %d", len(urls), len(descs), len(seps), nlist))
 	alpha := []string{"a", ",", " ", "\t", "\n", "\f", "\r", "\v", "(", ")", "1", "x", ".", "e", "_", "+", "-", "%", ":", "&", "w", "javascript:alert(1)", "https://o/p", "%2c", "0x1p-2", "inf", "2x"}
 	ln := 4
 	if r.Thorough() {
